@@ -10,6 +10,15 @@
 (*                         BatchOutOK for the raised input and must not    *)
 (*                         exceed the previous out                         *)
 (*   mcalc / mraise        the same for the mid tier                       *)
+(*   recon  {inp, t, out}  reconciler level (NodeResourceReconciler.Reconcile *)
+(*                         on a fake API server): the world was brought to *)
+(*                         inp (pods, NodeMetric present / missing / age), *)
+(*                         the node reconciled; out = batch-cpu / -memory  *)
+(*                         found in node.status.allocatable / capacity     *)
+(*                         afterwards.  out must satisfy PubOK: withdrawn  *)
+(*                         when the NodeMetric is missing / stale, bounded *)
+(*                         as in calc when it is fresh and the node must   *)
+(*                         carry the last calculation                      *)
 (*                                                                         *)
 (* Every check is a property-level predicate of Reclaim.tla evaluated on   *)
 (* the recorded input/output; the algorithm transcription (BatchImpl) is   *)
@@ -74,9 +83,22 @@ TMRaise ==
        /\ MidMonoOK(outp, Ev.out)
        /\ Take(j)
 
+\* reconciler level.  outp = what the node carried after the previous reconcile of this segment (n > 0).
+\* exact: the node object must carry this reconcile's calculation - first reconcile of the controller instance
+\* (nothing synced yet), no hysteresis configured, or nothing was published before (see Reclaim!PubOK).
+WhyPub(i, o, exact) == Mark(PubNonNegOK(o), "PubNonNeg") \cup Mark(PubStaleOK(i, o), "StaleNotWithdrawn")
+                       \cup Mark((~RStale(i) /\ exact) => PubBoundOK(i, o), "PubBound")
+TRecon ==
+  /\ IsEvent("recon")
+  /\ LET i == Ev.inp
+         exact == IF n = 0 THEN TRUE ELSE IF i.diff = 0 THEN TRUE ELSE PubWithdrawn(outp)   \* IF: outp = <<>> while n = 0
+     IN /\ Explain(PubOK(i, Ev.out, exact), WhyPub(i, Ev.out, exact))
+        /\ PubOK(i, Ev.out, exact)
+        /\ Take(i)
+
 TypeOK == n >= 0
 
 TraceInit == \E i \in Starts : TraceStart(i) /\ Init
-TraceNext == TCalc \/ TRaise \/ TMCalc \/ TMRaise \/ (SegDone /\ UNCHANGED vars)
+TraceNext == TCalc \/ TRaise \/ TMCalc \/ TMRaise \/ TRecon \/ (SegDone /\ UNCHANGED vars)
 TraceSpec == TraceInit /\ [][TraceNext]_<<vars, tvars>>
 =============================================================================
